@@ -297,6 +297,207 @@ fn judge(c: &Case, o: &Obs, vios: &mut Vec<Violation>) -> (u64, String) {
     (judgements, outcome)
 }
 
+/// Topologies: k crates `k1..kk`, crate i holds `T<i>` (and a second file with `Extra<i>` at depth), and for every
+/// pair i < j an edge "T<i> refers to T<j>" is present or absent — every subset of edges, i.e. every reference DAG
+/// compatible with the crate order (chains, fans, diamonds, isolated crates). Generic oracle: file set, each
+/// definition exactly once and in its crate's file, same definitions as single-file mode, exact imports.
+fn topology_family(rep: &mut Report) {
+    #[derive(Clone)]
+    struct Topo {
+        k: usize,
+        edges: u32,
+        qualified: bool,
+        lang: Lang,
+    }
+    let thorough = rep.thorough();
+    let mut jobs = Vec::new();
+    for k in 1..=5usize {
+        let pairs = k * (k - 1) / 2;
+        for edges in 0..(1u32 << pairs) {
+            for qualified in [false, true] {
+                for &lang in &ALL_LANGS {
+                    let imports_lang = matches!(lang, Lang::TypeScript | Lang::Kotlin);
+                    // quick: ≤ 4 crates for the import languages, ≤ 3 for the others; thorough: 5 (import languages) / 4
+                    let kmax = match (thorough, imports_lang) {
+                        (false, true) => 4,
+                        (false, false) => 3,
+                        (true, true) => 5,
+                        (true, false) => 4,
+                    };
+                    if k > kmax || (qualified && edges == 0) {
+                        continue;
+                    }
+                    jobs.push(Topo { k, edges, qualified, lang });
+                }
+            }
+        }
+    }
+    let edge_list = |t: &Topo| -> Vec<(usize, usize)> {
+        let mut v = Vec::new();
+        let mut bit = 0;
+        for i in 0..t.k {
+            for j in (i + 1)..t.k {
+                if t.edges & (1 << bit) != 0 {
+                    v.push((i, j));
+                }
+                bit += 1;
+            }
+        }
+        v
+    };
+    let ws_of = |t: &Topo| -> Vec<(String, String)> {
+        let es = edge_list(t);
+        let mut files = Vec::new();
+        for i in 0..t.k {
+            let mut uses = String::new();
+            let mut fields = String::from("    pub own: u32,\n");
+            for (a, b) in es.iter().filter(|e| e.0 == i) {
+                let _ = a;
+                let n = b + 1;
+                if t.qualified {
+                    fields.push_str(&format!("    pub r{n}: Vec<k{n}::T{n}>,\n"));
+                } else {
+                    uses.push_str(&format!("use k{n}::T{n};\n"));
+                    fields.push_str(&format!("    pub r{n}: Option<T{n}>,\n"));
+                }
+            }
+            let n = i + 1;
+            files.push((format!("ws/k{n}/src/lib.rs"), format!("{uses}#[typeshare]\npub struct T{n} {{\n{fields}}}\n")));
+            // a second file of the same crate, deeper, referring to the crate's own type
+            files.push((format!("ws/k{n}/src/sub/more.rs"), format!("use crate::T{n};\n#[typeshare]\npub struct Extra{n} {{\n    pub t: T{n},\n}}\n")));
+        }
+        files
+    };
+    let obs = par_map(&jobs, report::threads(), |t| {
+        let sc = Scratch::new("c14t");
+        let ws = ws_of(t);
+        for (p, src) in &ws {
+            sc.write(p, src.as_bytes());
+        }
+        sc.mkdir("out");
+        let args = cli::lang_args(t.lang);
+        let mut margs = args.clone();
+        margs.extend([s("-d"), sc.path("out").to_string_lossy().into_owned(), sc.path("ws").to_string_lossy().into_owned()]);
+        let r = run_cli(&margs, &sc.root, &[], cli::TIMEOUT);
+        let files: BTreeMap<String, String> = cli::snapshot(&sc.path("out")).into_iter().map(|(k, v)| (k, String::from_utf8_lossy(&v).into_owned())).collect();
+        let single_path = sc.path(&format!("single/types.{}", t.lang.ext()));
+        sc.mkdir("single");
+        let mut sargs = args.clone();
+        sargs.extend([s("-o"), single_path.to_string_lossy().into_owned(), sc.path("ws").to_string_lossy().into_owned()]);
+        let r2 = run_cli(&sargs, &sc.root, &[], cli::TIMEOUT);
+        Obs { class: r.class(), stderr: r.stderr.chars().take(800).collect(), files, single: std::fs::read_to_string(&single_path).unwrap_or_default(), single_class: r2.class(), argv: margs }
+    });
+    let mut judgements = 0u64;
+    let mut with_edges = 0u64;
+    for (t, o) in jobs.iter().zip(obs.iter()) {
+        let lang = t.lang;
+        let es = edge_list(t);
+        if !es.is_empty() {
+            with_edges += 1;
+        }
+        let out_deg_max = (0..t.k).map(|i| es.iter().filter(|e| e.0 == i).count()).max().unwrap_or(0);
+        let in_deg_max = (0..t.k).map(|i| es.iter().filter(|e| e.1 == i).count()).max().unwrap_or(0);
+        let shape = format!("crates={}|edges={}|max_out={out_deg_max}|max_in={in_deg_max}|qualified={}", t.k, es.len(), t.qualified as u8);
+        let ws = ws_of(t);
+        let detail = |what: &str| json!({"argv": o.argv, "edges": es.iter().map(|(a, b)| format!("T{}->T{}", a + 1, b + 1)).collect::<Vec<_>>(), "workspace": ws.iter().map(|(p, s)| json!({"path": p, "source": s})).collect::<Vec<_>>(), "generated_files": o.files, "stderr": o.stderr, "observation": what});
+        judgements += 1;
+        if o.class != "ok" {
+            rep.vios.add(Violation { sig: format!("C14|{}|topology|run-failed:{}|{shape}", lang.name(), o.class), detail: detail("multi-file run failed") });
+            continue;
+        }
+        let expected_files: BTreeSet<String> = (1..=t.k).map(|n| pipeline::out_file_name(lang, &format!("k{n}"))).collect();
+        let got_files: BTreeSet<String> = o.files.keys().filter(|k| *k != "Codable.swift").cloned().collect();
+        if got_files != expected_files {
+            rep.vios.add(Violation { sig: format!("C14|{}|topology|file-set|crates={}", lang.name(), t.k), detail: detail(&format!("expected files {expected_files:?}, got {got_files:?}")) });
+            continue;
+        }
+        let mut parsed: BTreeMap<String, OutFile> = BTreeMap::new();
+        let mut bad = false;
+        for (f, text) in o.files.iter().filter(|(f, _)| *f != "Codable.swift") {
+            match extract::extract(lang, text) {
+                Ok(of) => {
+                    parsed.insert(f.clone(), of);
+                }
+                Err(e) => {
+                    rep.vios.add(Violation { sig: format!("C14|{}|topology|unparseable-output:{}", lang.name(), e.class()), detail: detail(&format!("{f}: {}", e.msg())) });
+                    bad = true;
+                }
+            }
+        }
+        if bad {
+            continue;
+        }
+        // partition: T<n> and Extra<n> exactly once, in k<n>'s file
+        for n in 1..=t.k {
+            for name in [format!("T{n}"), format!("Extra{n}")] {
+                judgements += 1;
+                let home = pipeline::out_file_name(lang, &format!("k{n}"));
+                let total: usize = parsed.values().map(|of| of.defs.iter().filter(|d| d.name() == name).count()).sum();
+                let at_home = parsed.get(&home).map(|of| of.defs.iter().filter(|d| d.name() == name).count()).unwrap_or(0);
+                if total != 1 || at_home != 1 {
+                    rep.vios.add(Violation { sig: format!("C14|{}|topology|definition-misplaced|item={}|{shape}", lang.name(), if name.starts_with('T') { "T" } else { "Extra" }), detail: detail(&format!("{name}: {total} definition(s) overall, {at_home} in {home}")) });
+                }
+            }
+        }
+        // same definitions as single-file mode
+        judgements += 1;
+        if o.single_class == "ok" {
+            if let Ok(sof) = extract::extract(lang, &o.single) {
+                let mut a: Vec<String> = sof.defs.iter().map(def_summary).collect();
+                let mut b: Vec<String> = parsed.values().flat_map(|of| of.defs.iter().map(def_summary)).collect();
+                a.sort();
+                b.sort();
+                if a != b {
+                    rep.vios.add(Violation { sig: format!("C14|{}|topology|definitions-differ-from-single-file|{shape}", lang.name()), detail: detail(&format!("single-file: {a:?}\nmulti-file: {b:?}")) });
+                }
+            }
+        } else {
+            rep.vios.add(Violation { sig: format!("C14|{}|topology|single-file-run-failed:{}", lang.name(), o.single_class), detail: detail("the same tree must also generate in single-file mode") });
+        }
+        // imports
+        if matches!(lang, Lang::TypeScript | Lang::Kotlin) {
+            for (f, of) in &parsed {
+                let defined_here: BTreeSet<String> = of.defs.iter().map(|d| d.name().to_string()).collect();
+                let mut imported: BTreeMap<String, String> = BTreeMap::new();
+                for (module, names) in &of.imports {
+                    if lang == Lang::Kotlin && module.starts_with("kotlinx.") {
+                        continue;
+                    }
+                    let m = if lang == Lang::TypeScript { module.trim_start_matches("./").to_string() } else { module.rsplit('.').next().unwrap_or("").to_string() };
+                    for n in names {
+                        imported.insert(n.clone(), m.clone());
+                    }
+                }
+                let mut want: BTreeMap<String, String> = BTreeMap::new();
+                for r in referenced_names(of) {
+                    if defined_here.contains(&r) {
+                        continue;
+                    }
+                    if let Some((g, _)) = parsed.iter().find(|(g, x)| *g != f && x.defs.iter().any(|d| d.name() == r)) {
+                        want.insert(r.clone(), g.rsplit_once('.').map(|x| x.0.to_string()).unwrap_or(g.clone()));
+                    } else if r.starts_with('T') && r[1..].chars().all(|c| c.is_ascii_digit()) {
+                        rep.vios.add(Violation { sig: format!("C14|{}|topology|reference-to-undefined-name|{shape}", lang.name()), detail: detail(&format!("{f} refers to {r}, which no generated file defines")) });
+                    }
+                }
+                judgements += 1;
+                if imported != want {
+                    let missing: Vec<&String> = want.keys().filter(|k| !imported.contains_key(*k)).collect();
+                    let extra: Vec<&String> = imported.keys().filter(|k| !want.contains_key(*k)).collect();
+                    let wrong: Vec<&String> = want.iter().filter(|(k, m)| imported.get(*k).map(|x| x != *m).unwrap_or(false)).map(|(k, _)| k).collect();
+                    let class = if !missing.is_empty() { "import-missing" } else if !wrong.is_empty() { "import-from-wrong-module" } else { "import-not-needed" };
+                    rep.vios.add(Violation { sig: format!("C14|{}|topology|{class}|{shape}", lang.name()), detail: detail(&format!("{f}: imports {imported:?}, expected {want:?} (missing {missing:?}, wrong module {wrong:?}, not needed {extra:?})")) });
+                }
+            }
+        }
+    }
+    rep.cov("topologies", json!({"workspaces": jobs.len(), "with_cross_crate_references": with_edges, "crates": if thorough { "1..=5 (TS, Kotlin), 1..=4 (others)" } else { "1..=4 (TS, Kotlin), 1..=3 (others)" }, "edge_sets": "every subset of {i -> j : i < j}", "reference_styles": ["use + bare name", "qualified path"], "files_per_crate": 2, "judgements": judgements}));
+    rep.cov_add("evaluations", judgements);
+    rep.cov_add("states", jobs.len() as u64);
+    rep.cov_add("transitions", jobs.len() as u64 * 2);
+    rep.cov_add("traces_validated_against_impl", jobs.len() as u64 * 2);
+    rep.cov_add("distinct_nontrivial", with_edges);
+}
+
 pub fn run(args: &[String]) -> i32 {
     let tier = report::tier_from_env(args);
     let mut rep = Report::new("C14", &tier);
@@ -353,7 +554,8 @@ pub fn run(args: &[String]) -> i32 {
     rep.cov("traces_validated_against_impl", json!(cases.len() * 2));
     rep.cov("distinct_nontrivial", json!(nontrivial));
     rep.cov("distinct_outcomes", json!(outcomes.len()));
-    rep.cov("bounds", json!({"reference_forms": FORMS, "target_renamed": [false, true], "target_type_mapped": [false, true], "same_named_type_in_third_crate": [false, true], "positions": POSITIONS, "file_depth": ["src/lib.rs", "src/a/b.rs (and dashed crate name)"], "languages": 6, "crates": "2-3"}));
+    rep.cov("bounds", json!({"reference_forms": FORMS, "target_renamed": [false, true], "target_type_mapped": [false, true], "same_named_type_in_third_crate": [false, true], "positions": POSITIONS, "file_depth": ["src/lib.rs", "src/a/b.rs (and dashed crate name)"], "languages": 6, "crates": "2-3 (reference forms), 1-5 (topologies)"}));
+    topology_family(&mut rep);
     rep.cov("exhaustive", json!(true));
     rep.cov("rule", json!("full product of reference form × serde(rename) on the target × type mapping of the target × same-named type in a third crate × reference position × file depth/dashed crate name × language, each workspace generated with -d and with -o by the real binary: file set and names per crate, each definition in its crate's file, definitions equal to single-file mode, and (TypeScript, Kotlin) every cross-file reference imported from the defining module and no import of a name its module does not define. non-trivial = the reference crosses a crate boundary."));
     rep.assume("over-import by `use c::*` (names defined in c but unused) is allowed by the property");
